@@ -60,10 +60,30 @@ package main
 // ---- C07 / C10: targets run in command-line order, nothing after the first failure, nothing after "--"
 //@ pred beforeDash(args []string, n int) := forall j int :: 0 <= j && j < n ==> args[j] != "--"
 
+// C10: the arguments after the first "--" reach every task as .Args (joined by one space) and .ArgsList,
+// layered over the configuration's variables, and that container is the one the runner is built with
 //@ func buildTaskRunner
+//@   ghostlocal gArgs []string
+//@   ghostlocal gVars variables.Container
 //@   requires c != nil && cfgLoaded()
 //@   modifies *
 //@   ensures result#1 == nil ==> result != nil && runnerOK(result) && cfgLoaded() && compiledClosed()
+//@   callsite taskArgs
+//@     requires #C10.args-of-this-invocation arg0 == c
+//@     ghost gArgs = result
+//@   callsite With
+//@     requires #C10.args-over-config-variables recv == cfg.Variables && arg0 == "Args" && arg1 == boxstr(joinOf(gArgs, " "))
+//@     ghost gVars = result
+//@   callsite Set
+//@     requires #C10.args-list-next-to-args recv == gVars && arg0 == "ArgsList" && calls(With) == 1
+//@   callsite WithVariables
+//@     requires #C10.runner-gets-these-variables arg0 == gVars && calls(Set) == 1
+//@   callsite NewTaskRunner
+//@     assume result#1 == nil ==> runnerOK(result) && cfgLoaded() && compiledClosed() // NewTaskRunner fills every field runnerOK names (constructor with option callbacks: not verified); it does not touch the configuration
+// the goroutine that forwards an abort (closing `cancel`) to the runner
+//@ func buildTaskRunner$1
+//@   requires taskRunner != nil && runnerOK(taskRunner)
+//@   modifies *
 
 //@ func rootAction
 //@   ghostlocal failed bool
